@@ -32,7 +32,7 @@ def keys_for(db, prop):
 
 
 def _worker(args):
-    key, root, timeout_ms, replay_dir, use_cvc5 = args
+    key, root, timeout_ms, domain_n, use_cvc5 = args
     out = dict(key=key, results=[], error=None, npaths=0, assumed=[], wall_s=0.0, source_hash=None)
     try:
         sys.setrecursionlimit(10000)
@@ -62,13 +62,32 @@ def _worker(args):
                     except Exception as e:
                         j['replay_error'] = f'{type(e).__name__}: {e}\n{traceback.format_exc()[-1500:]}'
             out['results'].append(j)
+        # bounded domain of the function: the executable form of the same contract on the real function.
+        # (i) CPython cross-check of engine + contract on every run, (ii) search for a real failing input when an
+        # obligation failed or stayed undecided. Bounded, never counted as proved.
+        if key in db.domains:
+            import itertools
+            n = nviol = 0
+            first = []
+            t1 = __import__('time').time()
+            for env, call, universe, desc in itertools.islice(db.domains[key](domain_n), domain_n):
+                viol = run_exec_contract(c, env, call, universe)
+                if viol is None:
+                    continue
+                n += 1
+                if viol:
+                    nviol += 1
+                    if len(first) < 3:
+                        first.append(dict(call=desc, violations=[list(v) for v in viol]))
+            out['domain'] = dict(evaluated=n, violating=nviol, first=first,
+                                 wall_s=round(__import__('time').time() - t1, 2))
     except Exception as e:
         out['error'] = f'checker crash: {type(e).__name__}: {e}\n{traceback.format_exc()[-3000:]}'
         out['crash'] = True
     return out
 
 
-def run_property(prop, root='/repo', timeout_ms=10000, jobs=None, use_cvc5=True, keys=None):
+def run_property(prop, root='/repo', timeout_ms=10000, jobs=None, use_cvc5=True, keys=None, domain_n=300):
     db = load_db(root)
     keys = keys if keys is not None else keys_for(db, prop)
     jobs = jobs or min(16, max(1, len(keys)))
@@ -76,5 +95,5 @@ def run_property(prop, root='/repo', timeout_ms=10000, jobs=None, use_cvc5=True,
     outs = []
     if keys:
         with ProcessPoolExecutor(max_workers=jobs) as ex:
-            outs = list(ex.map(_worker, [(k, root, timeout_ms, None, use_cvc5) for k in keys]))
+            outs = list(ex.map(_worker, [(k, root, timeout_ms, domain_n, use_cvc5) for k in keys]))
     return dict(outs=outs, wall_s=time.time() - t0, db=db)
